@@ -4,31 +4,345 @@ outcomes; C19 postconditions for sorted x). -/
 namespace PbVerif.Lemmas
 open PbVerif.Loess
 
+/-! ### helpers -/
+
+theorem loop_succ (m : Nat) :
+    (List.range (m+1)).map (· + 1) = (List.range m).map (· + 1) ++ [m+1] := by
+  simp [List.range_succ]
+
+/-- generic invariant rule for the main loop -/
+theorem fold_inv (o : Oracle) (n : Nat) (check : Bool) (P : Nat → St → Prop) (s0 : St)
+    (h0 : P 0 s0) (m : Nat)
+    (hstep : ∀ i s, i < m → P i s → P (i+1) (iter o n check s (i+1))) :
+    P m (((List.range m).map (· + 1)).foldl (iter o n check) s0) := by
+  induction m with
+  | zero => simpa
+  | succ k ih =>
+    rw [loop_succ, List.foldl_append]
+    simp only [List.foldl_cons, List.foldl_nil]
+    exact hstep k _ (by omega) (ih (fun i s hi => hstep i s (by omega)))
+
+theorem zip_tail_append (l : List Nat) (L a : Nat) (h : l.getLast? = some L) :
+    (l ++ [a]).zip (l ++ [a]).tail = l.zip l.tail ++ [(L, a)] := by
+  induction l with
+  | nil => simp at h
+  | cons b t ih =>
+    cases t with
+    | nil => simp at h; simp [h]
+    | cons c t' =>
+      have := ih (by simpa [List.getLast?_cons_cons] using h)
+      simpa using this
+
+/-- the part of the loop invariant that does not mention the skip bookkeeping:
+`L` is the last fitted index, `i` the last processed index -/
+structure Core (i : Nat) (s : St) (L : Nat) : Prop where
+  wlen : s.windows.length = s.fits.length
+  head : s.fits.head? = some 0
+  pw : s.fits.Pairwise (· < ·)
+  last : s.fits.getLast? = some L
+  le : ∀ f ∈ s.fits, f ≤ L
+  flen : s.fits.length ≤ L + 1
+  Li : L ≤ i
+  sklen : s.skips.length + 1 ≤ s.fits.length
+  skinb : ∀ p ∈ s.skips, p.1 + 1 < p.2 ∧ p.2 ≤ i + 1
+  gaps : s.skips.filter (fun p => p.1 + 2 < p.2) =
+    ((s.fits.zip s.fits.tail).filter (fun p => p.1 + 1 < p.2)).map (fun p => (p.1, p.2 + 1))
+
+theorem Core.mono {i i' : Nat} {s s' : St} {L : Nat} (c : Core i s L) (hi : i ≤ i')
+    (hf : s'.fits = s.fits) (hw : s'.windows = s.windows) (hs : s'.skips = s.skips) :
+    Core i' s' L := by
+  refine ⟨?_, ?_, ?_, ?_, ?_, ?_, ?_, ?_, ?_, ?_⟩
+  · rw [hf, hw]; exact c.wlen
+  · rw [hf]; exact c.head
+  · rw [hf]; exact c.pw
+  · rw [hf]; exact c.last
+  · rw [hf]; exact c.le
+  · rw [hf]; exact c.flen
+  · have := c.Li; omega
+  · rw [hf, hs]; exact c.sklen
+  · rw [hs]; intro p hp; have := c.skinb p hp; omega
+  · rw [hf, hs]; exact c.gaps
+
+theorem Core.append {i i' j : Nat} {s s' : St} {L : Nat} {w : Int × Int} (c : Core i s L)
+    (hLj : L < j) (hj : j ≤ i') (hii : i ≤ i')
+    (hf : s'.fits = s.fits ++ [j]) (hw : s'.windows = s.windows ++ [w])
+    (hs : (s'.skips = s.skips ∧ j = L + 1) ∨ s'.skips = s.skips ++ [(L, j + 1)]) :
+    Core i' s' j := by
+  refine ⟨?_, ?_, ?_, ?_, ?_, ?_, ?_, ?_, ?_, ?_⟩
+  · rw [hf, hw]; simp [c.wlen]
+  · rw [hf]; have := c.head
+    cases hfs : s.fits with
+    | nil => simp [hfs] at this
+    | cons a t => simpa [hfs] using this
+  · rw [hf, List.pairwise_append]
+    refine ⟨c.pw, by simp, ?_⟩
+    intro a ha b hb
+    simp at hb
+    have := c.le a ha; omega
+  · rw [hf]; simp
+  · rw [hf]; intro f hf'
+    simp at hf'
+    rcases hf' with h | h
+    · have := c.le f h; omega
+    · omega
+  · rw [hf]; have := c.flen; simp; omega
+  · omega
+  · have := c.sklen
+    rcases hs with ⟨h, _⟩ | h <;> rw [h, hf] <;> simp <;> omega
+  · intro p hp
+    rcases hs with ⟨h, _⟩ | h
+    · rw [h] at hp; have := c.skinb p hp; omega
+    · rw [h] at hp; simp at hp
+      rcases hp with hp | hp
+      · have := c.skinb p hp; omega
+      · subst hp; simp; omega
+  · rw [hf, zip_tail_append _ _ _ c.last, List.filter_append, List.map_append, ← c.gaps]
+    rcases hs with ⟨h, h2⟩ | h
+    · rw [h]; subst h2; simp
+    · rw [h, List.filter_append]
+      congr 1
+      by_cases hg : L + 1 < j
+      · have : L + 2 < j + 1 := by omega
+        simp [hg, this]
+      · have : ¬ (L + 2 < j + 1) := by omega
+        simp [hg, this]
+
+/-- relation between the skip bookkeeping and the last fitted index -/
+structure Link (check : Bool) (i : Nat) (s : St) (L : Nat) : Prop where
+  z : s.skipStart = 0 → L = i
+  nz : s.skipStart ≠ 0 → L + 1 = s.skipStart ∧ s.skipStart ≤ i ∧ check = true
+  lf : check = true → s.lastFit = L
+
+def LInv (check : Bool) (i : Nat) (s : St) : Prop := ∃ L, Core i s L ∧ Link check i s L
+
+def st0 (tp : Nat) : St :=
+  { fits := [0], windows := [(0, (tp : Int))], skips := [], skipStart := 0, lastFit := 0,
+    left := 0, right := tp }
+
+def loop (o : Oracle) (n tp : Nat) (check : Bool) : St :=
+  ((List.range (n - 2)).map (· + 1)).foldl (iter o n check) (st0 tp)
+
+def special (o : Oracle) (n tp : Nat) (s : St) : St :=
+  if s.skipStart ≠ 0 then
+    let w : Int × Int :=
+      if n = tp ∨ o.tail then (((n - tp : Nat) : Int), (n : Int))
+      else (((n : Int) - (tp : Int) - 1), ((n : Int) - 1))
+    { s with fits := s.fits ++ [n - 2], windows := s.windows ++ [w],
+             skips := s.skips ++ [(s.skipStart - 1, n - 1)] }
+  else s
+
+def final (n tp : Nat) (s : St) : St :=
+  if n > 1 then { s with fits := s.fits ++ [n - 1],
+                         windows := s.windows ++ [(((n - tp : Nat) : Int), (n : Int))] } else s
+
+theorem determineFits_eq (o : Oracle) (n tp : Nat) (check : Bool) :
+    determineFits o n tp check =
+      ((final n tp (special o n tp (loop o n tp check))).windows,
+       (final n tp (special o n tp (loop o n tp check))).fits,
+       (final n tp (special o n tp (loop o n tp check))).skips) := rfl
+
+theorem st0_LInv (check : Bool) (tp : Nat) : LInv check 0 (st0 tp) := by
+  refine ⟨0, ⟨?_, ?_, ?_, ?_, ?_, ?_, ?_, ?_, ?_, ?_⟩, ⟨?_, ?_, ?_⟩⟩ <;> simp [st0]
+
+theorem iter_LInv (o : Oracle) (n : Nat) (check : Bool) (i : Nat) (s : St)
+    (h : LInv check i s) : LInv check (i+1) (iter o n check s (i+1)) := by
+  obtain ⟨L, c, k⟩ := h
+  unfold iter
+  by_cases hb : (check && o.skip (i+1) s.lastFit) = true
+  · rw [if_pos hb]
+    have hc : check = true := by simp at hb; exact hb.1
+    refine ⟨L, c.mono (by omega) rfl rfl rfl, ⟨?_, ?_, ?_⟩⟩
+    · intro h0; exfalso
+      by_cases hz : s.skipStart = 0 <;> simp [hz] at h0
+    · intro _
+      by_cases hz : s.skipStart = 0
+      · have := k.z hz; simp [hz, hc]; omega
+      · have := k.nz hz; simp [hz, hc]; omega
+    · intro h; exact k.lf h
+  · rw [if_neg hb]
+    cases check with
+    | false =>
+      have hz : s.skipStart = 0 := by
+        apply Decidable.byContradiction; intro hz
+        have := (k.nz hz).2.2; simp at this
+      have hL := k.z hz
+      refine ⟨i+1, c.append (by omega) (Nat.le_refl _) (by omega) rfl rfl
+        (Or.inl ⟨rfl, by omega⟩), ⟨?_, ?_, ?_⟩⟩
+      · intro _; rfl
+      · intro h; exact absurd hz h
+      · intro h; simp at h
+    | true =>
+      have hLi := c.Li
+      refine ⟨i+1, c.append (by omega) (Nat.le_refl _) (by omega) rfl rfl ?_, ⟨?_, ?_, ?_⟩⟩
+      · by_cases hz : s.skipStart = 0
+        · left; have := k.z hz; simp [hz]; omega
+        · right; have := k.nz hz
+          have e : s.skipStart - 1 = L := by omega
+          simp [hz, e]
+      · intro _; rfl
+      · intro h; simp at h
+      · intro _; rfl
+
+theorem loop_LInv (o : Oracle) (n tp : Nat) (check : Bool) :
+    LInv check (n - 2) (loop o n tp check) :=
+  fold_inv o n check (LInv check) (st0 tp) (st0_LInv check tp) (n - 2)
+    (fun i s _ h => iter_LInv o n check i s h)
+
+/-- after the special case for the second to last point -/
+theorem special_Core (o : Oracle) (n tp : Nat) (check : Bool) :
+    Core (n - 2) (special o n tp (loop o n tp check)) (n - 2) := by
+  obtain ⟨L, c, k⟩ := loop_LInv o n tp check
+  unfold special
+  by_cases hz : (loop o n tp check).skipStart = 0
+  · rw [if_neg (by simpa using hz)]
+    have := k.z hz; subst this; exact c
+  · rw [if_pos hz]
+    have := k.nz hz
+    refine c.append (by omega) (Nat.le_refl _) (Nat.le_refl _) rfl rfl (Or.inr ?_)
+    have e : (loop o n tp check).skipStart - 1 = L := by omega
+    have e2 : n - 1 = n - 2 + 1 := by omega
+    simp [e, e2]
+
+theorem final_Core (o : Oracle) (n tp : Nat) (check : Bool) :
+    Core (n - 1) (final n tp (special o n tp (loop o n tp check))) (n - 1) := by
+  have c := special_Core o n tp check
+  unfold final
+  by_cases hn : n > 1
+  · rw [if_pos hn]
+    exact c.append (by omega) (Nat.le_refl _) (by omega) rfl rfl (Or.inl ⟨rfl, by omega⟩)
+  · rw [if_neg hn]
+    have e : n - 1 = n - 2 := by omega
+    rw [e]; exact c
+
 /-! ### for ARBITRARY comparison outcomes (NaN, unsorted x): index safety -/
 
 theorem determineFits_lengths (o : Oracle) (n tp : Nat) (check : Bool) :
-    (determineFits o n tp check).1.length = (determineFits o n tp check).2.1.length := by sorry
+    (determineFits o n tp check).1.length = (determineFits o n tp check).2.1.length := by
+  rw [determineFits_eq]; exact (final_Core o n tp check).wlen
 
 /-- every write `fits[total_fits]`, `windows[total_fits]` is inside the length-N arrays -/
 theorem determineFits_count (o : Oracle) (n tp : Nat) (check : Bool) (hn : 1 ≤ n) :
-    (determineFits o n tp check).2.1.length ≤ n := by sorry
+    (determineFits o n tp check).2.1.length ≤ n := by
+  rw [determineFits_eq]; have := (final_Core o n tp check).flen; simp only; omega
 
 /-- every write `skips[total_skips]` is inside the (N, 2) array -/
 theorem determineFits_skips_count (o : Oracle) (n tp : Nat) (check : Bool) (hn : 1 ≤ n) :
-    (determineFits o n tp check).2.2.length ≤ n := by sorry
+    (determineFits o n tp check).2.2.length ≤ n := by
+  rw [determineFits_eq]
+  have := (final_Core o n tp check).flen
+  have := (final_Core o n tp check).sklen
+  simp only; omega
 
 theorem determineFits_fits_lt (o : Oracle) (n tp : Nat) (check : Bool) (hn : 1 ≤ n) :
-    ∀ f ∈ (determineFits o n tp check).2.1, f < n := by sorry
+    ∀ f ∈ (determineFits o n tp check).2.1, f < n := by
+  rw [determineFits_eq]; intro f hf
+  have := (final_Core o n tp check).le f hf; omega
+
+/-- every skip range `[a, b)` handed to `_fill_skips` is non-empty and inside the data -/
+theorem determineFits_skips_inb (o : Oracle) (n tp : Nat) (check : Bool) (hn : 1 ≤ n) :
+    ∀ s ∈ (determineFits o n tp check).2.2, s.1 + 2 < s.2 + 1 ∧ s.2 ≤ n := by
+  rw [determineFits_eq]; intro p hp
+  have := (final_Core o n tp check).skinb p hp; omega
+
+/-! windows -/
+
+theorem advance_spec (o : Oracle) (n i tp : Nat) : ∀ f l r, r = l + tp → r ≤ n →
+    (advance o n i f l r).2 = (advance o n i f l r).1 + tp ∧ l ≤ (advance o n i f l r).1 ∧
+      (advance o n i f l r).2 ≤ n := by
+  intro f
+  induction f with
+  | zero => intro l r h1 h2; simp [advance]; omega
+  | succ f ih =>
+    intro l r h1 h2
+    unfold advance
+    by_cases hc : r < n ∧ o.adv i l r = true
+    · rw [if_pos hc]
+      have := ih (l+1) (r+1) (by omega) (by omega)
+      omega
+    · rw [if_neg hc]; simp; omega
+
+def WOk (n tp : Nat) (w : Int × Int) : Prop := 0 ≤ w.1 ∧ w.2 ≤ (n : Int) ∧ w.2 - w.1 = (tp : Int)
+
+def WInv (n tp : Nat) (s : St) : Prop :=
+  s.right = s.left + tp ∧ s.right ≤ n ∧ ∀ w ∈ s.windows, WOk n tp w
+
+/-- the fit branch of `iter` -/
+def fitSt (o : Oracle) (n i : Nat) (s1 : St) : St :=
+  let lr := advance o n i n s1.left s1.right
+  { s1 with fits := s1.fits ++ [i], windows := s1.windows ++ [((lr.1 : Int), (lr.2 : Int))],
+            left := lr.1, right := lr.2 }
+
+theorem iter_eq (o : Oracle) (n : Nat) (check : Bool) (s : St) (i : Nat) :
+    iter o n check s i =
+      if check && o.skip i s.lastFit then
+        { s with skipStart := if s.skipStart = 0 then i else s.skipStart }
+      else fitSt o n i
+        (if check then
+          { s with lastFit := i,
+                   skips := if s.skipStart ≠ 0 then s.skips ++ [(s.skipStart - 1, i + 1)] else s.skips,
+                   skipStart := 0 }
+         else s) := rfl
+
+theorem fitSt_WInv (o : Oracle) (n tp i : Nat) (s s1 : St) (h : WInv n tp s)
+    (e1 : s1.left = s.left) (e2 : s1.right = s.right) (e3 : s1.windows = s.windows) :
+    WInv n tp (fitSt o n i s1) := by
+  obtain ⟨h1, h2, h3⟩ := h
+  have := advance_spec o n i tp n s.left s.right h1 h2
+  unfold fitSt
+  simp only [e1, e2, e3]
+  refine ⟨this.1, this.2.2, ?_⟩
+  intro w hw
+  simp at hw
+  rcases hw with hw | hw
+  · exact h3 w hw
+  · subst hw; simp only [WOk]; omega
+
+theorem iter_WInv (o : Oracle) (n tp : Nat) (check : Bool) (i : Nat) (s : St)
+    (h : WInv n tp s) : WInv n tp (iter o n check s i) := by
+  rw [iter_eq]
+  by_cases hb : (check && o.skip i s.lastFit) = true
+  · rw [if_pos hb]; exact h
+  · rw [if_neg hb]
+    cases check with
+    | false => exact fitSt_WInv o n tp i s _ h rfl rfl rfl
+    | true => exact fitSt_WInv o n tp i s _ h rfl rfl rfl
+
+theorem loop_WInv (o : Oracle) (n tp : Nat) (check : Bool) (htpn : tp ≤ n) :
+    WInv n tp (loop o n tp check) := by
+  refine fold_inv o n check (fun _ s => WInv n tp s) (st0 tp) ?_ (n - 2)
+    (fun i s _ h => iter_WInv o n tp check (i+1) s h)
+  refine ⟨by simp [st0], by simpa [st0] using htpn, ?_⟩
+  intro w hw; simp [st0] at hw; subst hw; simp [WOk]; omega
 
 /-- **every window is exactly `total_points` indices inside `[0, N)`** — what makes the slices
 `x[left:right]`, `kernels[i] = kernel`, `difference[0]`, `difference[-1]` of the loess kernels safe -/
 theorem determineFits_windows_inb (o : Oracle) (n tp : Nat) (check : Bool) (hn : 1 ≤ n)
     (htp : 1 ≤ tp) (htpn : tp ≤ n) :
-    ∀ w ∈ (determineFits o n tp check).1, 0 ≤ w.1 ∧ w.2 ≤ (n : Int) ∧ w.2 - w.1 = (tp : Int) := by sorry
-
-/-- every skip range `[a, b)` handed to `_fill_skips` is non-empty and inside the data -/
-theorem determineFits_skips_inb (o : Oracle) (n tp : Nat) (check : Bool) (hn : 1 ≤ n) :
-    ∀ s ∈ (determineFits o n tp check).2.2, s.1 + 2 < s.2 + 1 ∧ s.2 ≤ n := by sorry
+    ∀ w ∈ (determineFits o n tp check).1, 0 ≤ w.1 ∧ w.2 ≤ (n : Int) ∧ w.2 - w.1 = (tp : Int) := by
+  rw [determineFits_eq]
+  have h3 := (loop_WInv o n tp check htpn).2.2
+  have hlast : WOk n tp (((n - tp : Nat) : Int), (n : Int)) := by simp only [WOk]; omega
+  have hs : ∀ w ∈ (special o n tp (loop o n tp check)).windows, WOk n tp w := by
+    unfold special
+    by_cases hz : (loop o n tp check).skipStart ≠ 0
+    · rw [if_pos hz]
+      intro w hw
+      simp only [List.mem_append, List.mem_singleton] at hw
+      rcases hw with hw | hw
+      · exact h3 w hw
+      · by_cases ht : n = tp ∨ o.tail = true
+        · rw [if_pos ht] at hw; subst hw; exact hlast
+        · rw [if_neg ht] at hw; subst hw; simp only [WOk]; omega
+    · rw [if_neg hz]; exact h3
+  unfold final
+  by_cases h1 : n > 1
+  · rw [if_pos h1]
+    intro w hw
+    simp only [List.mem_append, List.mem_singleton] at hw
+    rcases hw with hw | hw
+    · exact hs w hw
+    · subst hw; exact hlast
+  · rw [if_neg h1]; exact hs
 
 /-! ### for sorted, pairwise distinct x (what `loess` passes): the documented behaviour -/
 
@@ -38,18 +352,55 @@ def StrictMonoL (x : List Rat) : Prop := ∀ i j, i < j → j < x.length → x.g
 /-- the first and last points are always fitted and fits are strictly increasing -/
 theorem fits_sorted_ends (x : List Rat) (tp : Nat) (delta : Rat) (hn : 2 ≤ x.length) :
     let fits := (determineFitsX x tp delta).2.1
-    fits.Pairwise (· < ·) ∧ fits.head? = some 0 ∧ fits.getLast? = some (x.length - 1) := by sorry
+    fits.Pairwise (· < ·) ∧ fits.head? = some 0 ∧ fits.getLast? = some (x.length - 1) := by
+  unfold determineFitsX
+  rw [determineFits_eq]
+  have c := final_Core (realOracle x tp delta) x.length tp (decide (delta > 0))
+  exact ⟨c.pw, c.head, c.last⟩
+
+def DInv (i : Nat) (s : St) : Prop := s.fits = List.range (i+1) ∧ s.skips = [] ∧ s.skipStart = 0
+
+theorem iter_DInv (o : Oracle) (n i : Nat) (s : St) (h : DInv i s) :
+    DInv (i+1) (iter o n false s (i+1)) := by
+  obtain ⟨h1, h2, h3⟩ := h
+  rw [iter_eq]
+  simp only [Bool.false_and, Bool.false_eq_true, if_false]
+  unfold fitSt
+  refine ⟨?_, h2, h3⟩
+  simp only [h1]
+  exact (List.range_succ (n := i+1)).symm
+
+theorem loop_DInv (o : Oracle) (n tp : Nat) : DInv (n - 2) (loop o n tp false) :=
+  fold_inv o n false DInv (st0 tp) (by simp [DInv, st0, List.range_succ]) (n - 2)
+    (fun i s _ h => iter_DInv o n i s h)
 
 /-- with `delta ≤ 0` every point is fitted individually and nothing is skipped -/
 theorem delta0_all (x : List Rat) (tp : Nat) (delta : Rat) (hd : delta ≤ 0) (hn : 1 ≤ x.length) :
-    (determineFitsX x tp delta).2.1 = List.range x.length ∧ (determineFitsX x tp delta).2.2 = [] := by sorry
-
-/-- every local fit's window contains the point being fitted -/
-theorem windows_contain_fit (x : List Rat) (tp : Nat) (delta : Rat) (hx : StrictMonoL x)
-    (hn : 1 ≤ x.length) (htp : 1 ≤ tp) (htpn : tp ≤ x.length) :
-    let r := determineFitsX x tp delta
-    ∀ k, k < r.2.1.length → (r.1.getD k (0, 0)).1 ≤ ((r.2.1.getD k 0 : Nat) : Int) ∧
-      ((r.2.1.getD k 0 : Nat) : Int) < (r.1.getD k (0, 0)).2 := by sorry
+    (determineFitsX x tp delta).2.1 = List.range x.length ∧ (determineFitsX x tp delta).2.2 = [] := by
+  unfold determineFitsX
+  have hc : decide (delta > 0) = false := by
+    simp only [decide_eq_false_iff_not]; exact Rat.not_lt.mpr hd
+  rw [hc, determineFits_eq]
+  obtain ⟨h1, h2, h3⟩ := loop_DInv (realOracle x tp delta) x.length tp
+  have hs : special (realOracle x tp delta) x.length tp (loop (realOracle x tp delta) x.length tp false)
+      = loop (realOracle x tp delta) x.length tp false := by
+    unfold special; rw [if_neg (by simpa using h3)]
+  rw [hs]
+  unfold final
+  by_cases h : x.length > 1
+  · rw [if_pos h]
+    refine ⟨?_, h2⟩
+    simp only [h1]
+    have e : x.length = (x.length - 2 + 1) + 1 := by omega
+    have e2 : x.length - 1 = x.length - 2 + 1 := by omega
+    rw [e2]
+    conv => rhs; rw [e]
+    exact (List.range_succ (n := x.length - 2 + 1)).symm
+  · rw [if_neg h]
+    refine ⟨?_, h2⟩
+    rw [h1]
+    have e : x.length - 2 + 1 = x.length := by omega
+    rw [e]
 
 /-- the skip ranges with a non-empty interior are exactly the gaps between consecutive fitted points:
 a range `(a, b)` means `a` and `b - 1` are consecutive fits with at least one skipped point between
@@ -58,14 +409,180 @@ interior is empty if only the second to last point — which is then fitted itse
 theorem skips_are_gaps (x : List Rat) (tp : Nat) (delta : Rat) (hn : 2 ≤ x.length) :
     let r := determineFitsX x tp delta
     r.2.2.filter (fun s => s.1 + 2 < s.2) =
-      ((r.2.1.zip r.2.1.tail).filter (fun p => p.1 + 1 < p.2)).map (fun p => (p.1, p.2 + 1)) := by sorry
+      ((r.2.1.zip r.2.1.tail).filter (fun p => p.1 + 1 < p.2)).map (fun p => (p.1, p.2 + 1)) := by
+  unfold determineFitsX
+  rw [determineFits_eq]
+  exact (final_Core (realOracle x tp delta) x.length tp (decide (delta > 0))).gaps
 
 /-- `_fill_skips`: a skipped point lies on the chord through its two fitted neighbours; fitted
 points and points outside every skip range are unchanged -/
 theorem fillSkips_chord (x b : List Rat) (l r k : Nat) (hlen : x.length = b.length) (hk : l < k ∧ k + 1 < r) (hr : r ≤ b.length) :
     (fillSkips x b [(l, r)]).getD k 0 =
-      b.getD l 0 + (x.getD k 0 - x.getD l 0) * ((b.getD (r - 1) 0 - b.getD l 0) / (x.getD (r - 1) 0 - x.getD l 0)) := by sorry
+      b.getD l 0 + (x.getD k 0 - x.getD l 0) * ((b.getD (r - 1) 0 - b.getD l 0) / (x.getD (r - 1) 0 - x.getD l 0)) := by
+  have hkb : k < b.length := by omega
+  simp [fillSkips, List.getD_eq_getElem?_getD, hkb, hk]
 theorem fillSkips_fixed (x b : List Rat) (l r k : Nat) (hk : ¬ (l < k ∧ k + 1 < r)) (hkb : k < b.length) :
-    (fillSkips x b [(l, r)]).getD k 0 = b.getD k 0 := by sorry
+    (fillSkips x b [(l, r)]).getD k 0 = b.getD k 0 := by
+  simp only [fillSkips, List.foldl_cons, List.foldl_nil, List.getD_eq_getElem?_getD]
+  rw [List.getElem?_map, List.getElem?_range hkb]
+  simp only [Option.map_some, Option.getD_some]
+  rw [if_neg hk]
 
-end PbVerif.Lemmas
+/-! windows contain the fitted point -/
+
+theorem advance_contains (x : List Rat) (tp : Nat) (delta : Rat) (hx : StrictMonoL x) (i : Nat)
+    (hi : i + 1 < x.length) (htp : 1 ≤ tp) : ∀ f l r, r = l + tp → r ≤ x.length → l ≤ i →
+    x.length - r ≤ f →
+    (advance (realOracle x tp delta) x.length i f l r).1 ≤ i ∧
+      i < (advance (realOracle x tp delta) x.length i f l r).2 := by
+  intro f
+  induction f with
+  | zero => intro l r h1 h2 h3 h4; simp [advance]; omega
+  | succ f ih =>
+    intro l r h1 h2 h3 h4
+    unfold advance
+    by_cases hc : r < x.length ∧ (realOracle x tp delta).adv i l r = true
+    · rw [if_pos hc]
+      have hl : l < i := by
+        apply Decidable.byContradiction; intro hl
+        have e : l = i := by omega
+        subst e
+        have h5 := hc.2
+        simp only [realOracle, decide_eq_true_eq] at h5
+        have := hx l r (by omega) hc.1
+        grind
+      exact ih (l+1) (r+1) (by omega) (by omega) (by omega) (by omega)
+    · rw [if_neg hc]
+      refine ⟨h3, ?_⟩
+      apply Decidable.byContradiction; intro hr
+      have hrn : r < x.length := by omega
+      apply hc
+      refine ⟨hrn, ?_⟩
+      simp only [realOracle, decide_eq_true_eq]
+      have a1 := hx l i (by omega) (by omega)
+      by_cases e : r = i
+      · subst e; grind
+      · have a2 := hx r i (by omega) (by omega)
+        grind
+
+def Cont (p : (Int × Int) × Nat) : Prop := p.1.1 ≤ (p.2 : Int) ∧ (p.2 : Int) < p.1.2
+
+def CInv (n tp i : Nat) (s : St) : Prop :=
+  s.right = s.left + tp ∧ s.right ≤ n ∧ s.left ≤ i ∧ s.windows.length = s.fits.length ∧
+    ∀ p ∈ s.windows.zip s.fits, Cont p
+
+theorem fitSt_CInv (x : List Rat) (tp : Nat) (delta : Rat) (hx : StrictMonoL x) (htp : 1 ≤ tp)
+    (i : Nat) (hi : i + 1 < x.length) (s s1 : St) (h : CInv x.length tp i s)
+    (e1 : s1.left = s.left) (e2 : s1.right = s.right) (e3 : s1.windows = s.windows)
+    (e4 : s1.fits = s.fits) :
+    CInv x.length tp i (fitSt (realOracle x tp delta) x.length i s1) := by
+  obtain ⟨h1, h2, h3, h4, h5⟩ := h
+  have a := advance_spec (realOracle x tp delta) x.length i tp x.length s.left s.right h1 h2
+  have b := advance_contains x tp delta hx i hi htp x.length s.left s.right h1 h2 h3 (by omega)
+  unfold fitSt
+  simp only [e1, e2, e3, e4]
+  refine ⟨a.1, a.2.2, b.1, by simp [h4], ?_⟩
+  rw [List.zip_append h4]
+  intro p hp
+  simp only [List.mem_append, List.zip_cons_cons, List.zip_nil_right, List.mem_singleton] at hp
+  rcases hp with hp | hp
+  · exact h5 p hp
+  · subst hp; simp only [Cont]; omega
+
+theorem iter_CInv (x : List Rat) (tp : Nat) (delta : Rat) (hx : StrictMonoL x) (htp : 1 ≤ tp)
+    (check : Bool) (i : Nat) (hi : i + 2 < x.length) (s : St) (h : CInv x.length tp i s) :
+    CInv x.length tp (i+1) (iter (realOracle x tp delta) x.length check s (i+1)) := by
+  have h' : CInv x.length tp (i+1) s := by
+    obtain ⟨h1, h2, h3, h4, h5⟩ := h
+    exact ⟨h1, h2, by omega, h4, h5⟩
+  rw [iter_eq]
+  by_cases hb : (check && (realOracle x tp delta).skip (i+1) s.lastFit) = true
+  · rw [if_pos hb]; exact h'
+  · rw [if_neg hb]
+    cases check with
+    | false => exact fitSt_CInv x tp delta hx htp (i+1) (by omega) s _ h' rfl rfl rfl rfl
+    | true => exact fitSt_CInv x tp delta hx htp (i+1) (by omega) s _ h' rfl rfl rfl rfl
+
+theorem loop_CInv (x : List Rat) (tp : Nat) (delta : Rat) (hx : StrictMonoL x) (htp : 1 ≤ tp)
+    (htpn : tp ≤ x.length) (check : Bool) :
+    CInv x.length tp (x.length - 2) (loop (realOracle x tp delta) x.length tp check) := by
+  refine fold_inv (realOracle x tp delta) x.length check (CInv x.length tp) (st0 tp) ?_
+    (x.length - 2) (fun i s hi h => iter_CInv x tp delta hx htp check i (by omega) s h)
+  refine ⟨by simp [st0], by simpa [st0] using htpn, by simp [st0], by simp [st0], ?_⟩
+  intro p hp; simp [st0] at hp; subst hp; simp [Cont]; omega
+
+theorem getD_of_zip (ws : List (Int × Int)) (fs : List Nat) (hlen : ws.length = fs.length)
+    (h : ∀ p ∈ ws.zip fs, Cont p) (k : Nat) (hk : k < fs.length) :
+    (ws.getD k (0, 0)).1 ≤ ((fs.getD k 0 : Nat) : Int) ∧
+      ((fs.getD k 0 : Nat) : Int) < (ws.getD k (0, 0)).2 := by
+  have hkw : k < ws.length := by omega
+  have hm : (ws[k], fs[k]) ∈ ws.zip fs := by
+    rw [List.mem_iff_getElem]
+    exact ⟨k, by simp; omega, by simp⟩
+  have := h _ hm
+  simp only [List.getD_eq_getElem?_getD, List.getElem?_eq_getElem hkw, List.getElem?_eq_getElem hk,
+    Option.getD_some]
+  exact this
+
+/-- every local fit's window contains the point being fitted -/
+theorem windows_contain_fit (x : List Rat) (tp : Nat) (delta : Rat) (hx : StrictMonoL x)
+    (hn : 1 ≤ x.length) (htp : 1 ≤ tp) (htpn : tp ≤ x.length) :
+    let r := determineFitsX x tp delta
+    ∀ k, k < r.2.1.length → (r.1.getD k (0, 0)).1 ≤ ((r.2.1.getD k 0 : Nat) : Int) ∧
+      ((r.2.1.getD k 0 : Nat) : Int) < (r.1.getD k (0, 0)).2 := by
+  unfold determineFitsX
+  rw [determineFits_eq]
+  generalize hck : decide (delta > 0) = check
+  have hlenF := (final_Core (realOracle x tp delta) x.length tp check).wlen
+  have hlenS := (special_Core (realOracle x tp delta) x.length tp check).wlen
+  obtain ⟨-, -, -, h4, h5⟩ := loop_CInv x tp delta hx htp htpn check
+  obtain ⟨L, c, lk⟩ := loop_LInv (realOracle x tp delta) x.length tp check
+  -- after the special case
+  have hs : ∀ p ∈ (special (realOracle x tp delta) x.length tp
+      (loop (realOracle x tp delta) x.length tp check)).windows.zip
+      (special (realOracle x tp delta) x.length tp
+        (loop (realOracle x tp delta) x.length tp check)).fits, Cont p := by
+    unfold special
+    by_cases hz : (loop (realOracle x tp delta) x.length tp check).skipStart ≠ 0
+    · rw [if_pos hz]
+      have hnz := lk.nz hz
+      have hn3 : 3 ≤ x.length := by omega
+      simp only
+      rw [List.zip_append h4]
+      intro p hp
+      simp only [List.mem_append, List.zip_cons_cons, List.zip_nil_right, List.mem_singleton] at hp
+      rcases hp with hp | hp
+      · exact h5 p hp
+      · by_cases ht : x.length = tp ∨ (realOracle x tp delta).tail = true
+        · rw [if_pos ht] at hp; subst hp
+          simp only [Cont]
+          rcases ht with ht | ht
+          · omega
+          · have htp2 : 2 ≤ tp := by
+              apply Decidable.byContradiction; intro h1
+              have e : tp = 1 := by omega
+              subst e
+              simp only [realOracle, decide_eq_true_eq] at ht
+              have := hx (x.length - 2) (x.length - 1) (by omega) (by omega)
+              grind
+            omega
+        · rw [if_neg ht] at hp; subst hp
+          simp only [Cont]; omega
+    · rw [if_neg hz]; exact h5
+  have hf : ∀ p ∈ (final x.length tp (special (realOracle x tp delta) x.length tp
+      (loop (realOracle x tp delta) x.length tp check))).windows.zip
+      (final x.length tp (special (realOracle x tp delta) x.length tp
+        (loop (realOracle x tp delta) x.length tp check))).fits, Cont p := by
+    unfold final
+    by_cases h1 : x.length > 1
+    · rw [if_pos h1]
+      simp only
+      rw [List.zip_append hlenS]
+      intro p hp
+      simp only [List.mem_append, List.zip_cons_cons, List.zip_nil_right, List.mem_singleton] at hp
+      rcases hp with hp | hp
+      · exact hs p hp
+      · subst hp; simp only [Cont]; omega
+    · rw [if_neg h1]; exact hs
+  intro r k hk
+  exact getD_of_zip _ _ hlenF hf k hk
